@@ -4308,3 +4308,14 @@ def run(chk):
     chk.floor("G2-", 2)
     chk.floor("E6-", 5)
     chk.floor("E7-", 6)
+
+
+# --- engine I (pgverif/oneshot.py): one-shot iterators handed out by the grid accessors are walked once per creation and never memoised.
+# Run first so that its reports do not depend on the idiom recognition of the rules above.
+_run_before_engine_I = run
+
+
+def run(chk):  # noqa: F811
+    from ..oneshot import attach
+    attach(chk, [(U.DIAG, None), (U.NORMS, None), (U.ENERGY, None)])
+    _run_before_engine_I(chk)
